@@ -174,21 +174,21 @@ def gen(rng, tier, dist):
         dist[k] = dist.get(k, 0) + n
     bundles_ok = "bundle-not-last" in known_classes()
     # (a) sequential histories
-    for _ in range(1500 if quick else 40000):
+    for _ in range(1500 if quick else 80000):
         MM, n = rng.choice(RINGS); N = MM * n
         nw, nr = rng.randint(1, 14), rng.randint(0, 16)
         ws, rs = gen_history(rng, N, MM, nw, nr, bundles_ok and rng.random() < 0.05)
         out.append(line(N, MM, ws, rs, seq_sched(rng, nw, nr), "seq"))
         count("seq"); count("ring=%dx%d" % (MM, n))
     # (b) random hook-level schedules
-    for _ in range(1500 if quick else 40000):
+    for _ in range(1500 if quick else 80000):
         MM, n = rng.choice(RINGS); N = MM * n
         nw, nr = rng.randint(1, 8), rng.randint(1, 10)
         ws, rs = gen_history(rng, N, MM, nw, nr, False)
         out.append(line(N, MM, ws, rs, ilv_sched(rng, rng.randint(4, 160)), "ilv"))
         count("ilv"); count("ring=%dx%d" % (MM, n))
     # (b') sequential prefix that fills / wraps the ring, then a hook-level schedule
-    for _ in range(800 if quick else 20000):
+    for _ in range(800 if quick else 40000):
         MM, n = rng.choice(RINGS[:10]); N = MM * n
         nw, nr = rng.randint(3, 10), rng.randint(2, 10)
         ws, rs = gen_history(rng, N, MM, nw, nr, False)
@@ -197,8 +197,8 @@ def gen(rng, tier, dist):
         out.append(line(N, MM, ws, rs, pre + ilv_sched(rng, rng.randint(4, 120)), "pre"))
         count("pre")
     # (b'') every schedule prefix of a fixed length for short histories
-    hists = 1 if quick else 6
-    depth = 9 if quick else 13
+    hists = 1 if quick else 10
+    depth = 9 if quick else 14
     for h in range(hists):
         MM, n = [(16, 2), (17, 3), (16, 3), (18, 3), (20, 2), (16, 2)][h % 6]; N = MM * n
         ws, rs = gen_history(rng, N, MM, 3, 3, False)
@@ -435,7 +435,7 @@ def pre_build(ctx):
     import random, subprocess
     exe = ctx["build_harness"]("C06tsan", HARNESS, "tsan", ctx["log"])
     rng = random.Random(ctx["seed"] * 31 + 5)
-    lines = ["soak %d %d %d %d" % (mm, n, 150000, rng.getrandbits(24))
+    lines = ["soak %d %d %d %d" % (mm, n, 1500000, rng.getrandbits(24))
              for mm, n in [(24, 2), (32, 3), (40, 4), (24, 4), (32, 2), (64, 2)]]
     env = dict(os.environ)
     env["TSAN_OPTIONS"] = "halt_on_error=1:exitcode=66"
